@@ -15,6 +15,16 @@ parsed from text (`foo(pa(0), , kW => pb('kW'))`, pa/pb being tick probes) and e
 a statement.  Each payload returns its tag and what it received; argument
 expressions are tick probes.  Expected: models/resolve.py.
 
+Two further dimensions: (1) calls with TWO keyword arguments, written in both
+orders, against pairs of same-layer overloads whose two keyword-bound
+parameters (keyword-only; positional bound by keyword; one declared + one
+caught by **kwargs) are declared in either order, all type pairs: specificity
+is compared keyword by keyword, whatever the declaration order.  (2) layers
+built by HISTORIES of registration attempts that contain a rejected one (a
+method / extension method whose receiver parameter is missing or lazy, with
+and without exclusive=True; the host catches InvalidMethodException): the
+attempt must leave resolution exactly as it would be without it.
+
 Overloads are enumerated in registration order (vf.resolution.OrderedContext):
 the address order of the real overload set is C06's subject.
 """
@@ -28,14 +38,18 @@ from models import resolve as M
 ID = 'C05'
 TITLE = 'overload resolution'
 RULE = ('all (family of overloads over context layers, call, path) within the bound; a case is distinct by '
-        '(layers, call, path in {direct, text}) and non-trivial when at least one overload of the right kind is '
+        '(layers - or the history of registration attempts that built them -, call, path in {direct, text}) and non-trivial when at least one overload of the right kind is '
         'visible (expected outcome is not "unknown function/method"); judged = outcome (tag or error class, '
         'function/method flavour) + log of evaluated arguments + what the payload received')
 ASSUMPTIONS = ['defaults of the enumerated parameters are type-correct for their own parameter (null for lazy ones)',
                'overloads of one layer are enumerated in registration order (set order is property C06)',
                'python keyword arguments handed directly to a family that contains a @no_kwargs overload are outside the domain '
                '(the decorator disables that syntax); the same call is still made through text',
-               'a method whose first visible parameter is missing or lazy is rejected at registration and is not part of the space']
+               'a method whose first visible parameter is missing or lazy is rejected at registration (InvalidMethodException, caught by '
+               'the host): in the singles/pairs/... families such a list is simply not enumerated as a method; in the registration '
+               'histories the rejected attempt IS made and the model says it changes nothing (models.resolve.registered)',
+               'accepted registrations of one layer share one exclusive flag (whether a later non-exclusive registration keeps an earlier '
+               'exclusive one is not written down); the flag of a rejected attempt is free']
 BOUNDS = {
     'quick': 'singles: parameter lists of <= 2 positional from 7 shapes [Any, A, B, Lazy, A?, A=default, C] x 11 extensions '
              '[*r, **kw, kW optional/required, kW with **kw, hidden Engine at 0 / Context at 1 / Engine at 2, combinations] x 3 kinds x 249 calls, both paths; '
@@ -46,10 +60,16 @@ BOUNDS = {
              '1-2 base overloads from 4 lists x 3 kinds in one or two farther layers, function and method syntax, both paths; '
              '@no_kwargs: 9 lists, flags (T), (T,T), (T,F), (F,T) x 3 layerings; triples: 7 lists cubed x 5 layerings; '
              'composite contexts: 7 lists cubed, two overloads in the two members of a MultiContext x member exclusive flags (F,F) (T,F) (F,T) (T,T) '
-             'x both member orders x {first member, both members} holding the parent chain, above a third overload in an ordinary layer; 7 lists squared x 4 layerings with the chain linked in front of the library by LinkedContext',
+             'x both member orders x {first member, both members} holding the parent chain, above a third overload in an ordinary layer; 7 lists squared x 4 layerings with the chain linked in front of the library by LinkedContext; '
+             'two keywords: all unordered same-layer pairs inside each of three groups of lists - {(*, kW: T1, kV: T2) in both declaration orders, (*, kW|kV: T, **kw: Any|A)}, '
+             '{(x: T1, y: T2), (y: T2, x: T1)}, {(x: A, *, kW: T1, kV: T2) in both orders} with T1, T2 over {Any, A, B, C} - x calls with both keywords in both written orders, '
+             'values {a, b, c} squared (behind a positional argument / a receiver for the third group), both paths; '
+             'registration histories: a rejected attempt (3 invalid lists [no parameter, lazy receiver, keyword-only only] x {method, ext} x exclusive {F, T}) alone in the nearest layer, '
+             'before / after an accepted registration (layer flag {F, T}) in it, or alone in a layer between two accepted ones; accepted overloads from 4 lists squared x 133 calls',
     'thorough': 'singles: 10 shapes x 17 extensions (also typed/lazy *r, typed **kw, lazy kW) x 3 kinds x 349 calls '
                 '(constants 1, \'k\', kw); pairs: 157 lists squared x 4 layerings x 173 calls; kind mixing and @no_kwargs on 16 lists; '
-                'triples: 22 lists cubed x 5 layerings; composite contexts on 16 lists',
+                'triples: 22 lists cubed x 5 layerings; composite contexts on 16 lists; two keywords: T1, T2 over {Any, A, B, C, A?, AC, Lazy}, values {a, b, c, n, null, 1}; '
+                'registration histories: 7 invalid lists (also hidden-then-lazy, **kw only, lazy then eager, lazy *r), accepted overloads from 7 lists squared',
 }
 
 SKIP = M.SKIP
@@ -306,7 +326,13 @@ def undetermined(layers, call, exp):
     return expected(layers, call, (M.KEYWORD_UNCHECKED,)) != exp
 
 
-def run_family(res, fid, layers, calls, text=True):
+def named(key, layers, call, path, obs, exp):
+    """The finding key: the mechanism classify() recognises, else the class `key` of the family (if it has one)."""
+    found = classify(layers, call, path, obs, exp)
+    return key if key and found.startswith('model-mismatch') else found
+
+
+def run_family(res, fid, layers, calls, text=True, key=None):
     ctx = R.build_layers(layers, R.CLASSES5, base())
     for ci, call in calls:
         exp = expected(layers, call)
@@ -325,7 +351,7 @@ def run_family(res, fid, layers, calls, text=True):
             res.outcomes['%s %s%s' % (path, outcome_class(exp[0]),
                                       ' after evaluating arguments' if exp[0][0] == 'error' and exp[1] else '')] += 1
             if obs != exp:
-                res.fail(classify(layers, call, path, obs, exp),
+                res.fail(named(key, layers, call, path, obs, exp),
                          {'layers': layers, 'call': call, 'path': path,
                           'text': R.text_of(call) if R.spellable(call) else None},
                          'observed %r expected %r' % (obs, exp))
@@ -553,8 +579,9 @@ def build_linked(layers):
     return R.contexts.LinkedContext(base(), ctx).create_child_context()
 
 
-def run_on(res, fid, ctx, layers, calls, text=True):
-    """run_family on a context built by the caller (layers = what the model is told)."""
+def run_on(res, fid, ctx, layers, calls, text=True, extra=None, key=None):
+    """run_family on a context built by the caller (layers = what the model is told;
+    extra = what replay() needs besides to build the context again)."""
     for ci, call in calls:
         exp = expected(layers, call)
         ood = undetermined(layers, call, exp)
@@ -570,9 +597,9 @@ def run_on(res, fid, ctx, layers, calls, text=True):
                 res.nontrivial += 1
             res.outcomes['%s %s %s' % (fid[0], path, outcome_class(exp[0]))] += 1
             if obs != exp:
-                res.fail('%s: %s' % (fid[0], classify(layers, call, path, obs, exp)),
-                         {'composite': fid, 'layers': layers, 'call': call, 'path': path,
-                          'text': R.text_of(call) if R.spellable(call) else None},
+                res.fail('%s: %s' % (fid[0], named(key, layers, call, path, obs, exp)),
+                         dict(extra or {}, composite=fid, layers=layers, call=call, path=path,
+                              text=R.text_of(call) if R.spellable(call) else None),
                          'observed %r expected %r' % (obs, exp))
 
 
@@ -619,6 +646,122 @@ def job_linked(tier, firsts):
     return res
 
 
+# ---------------------------------------------------------------------------
+# two keyword arguments: parameters bound by keyword are compared keyword by keyword
+# ---------------------------------------------------------------------------
+def kw2_types(tier):
+    out = [('Any', False), ('A', False), ('B', False), ('C', False)]
+    if tier == 'thorough':
+        out += [('A', True), ('AC', False), ('Lazy', True)]
+    return out
+
+
+def kw2_groups(tier):
+    """group -> (parameter lists, the two keyword names, (receiver, positional arguments) prefixes).
+    Inside a group every list binds both keywords, so two lists of a group can
+    match the same call; the lists come in both declaration orders."""
+    kwonly, bykeyword, behind = [], [], []
+    lead = P('x', 'pos', 'A')
+    types = kw2_types(tier)
+    for (t1, n1), (t2, n2) in itertools.product(types, repeat=2):
+        w, v = P('kW', 'kwonly', t1, n1), P('kV', 'kwonly', t2, n2)
+        kwonly += [(w, v), (v, w)]
+        behind += [(lead, w, v), (lead, v, w)]
+        x, y = P('x', 'pos', t1, n1), P('y', 'pos', t2, n2)
+        bykeyword += [(x, y), (y, x)]
+    for t, n in types:       # one keyword declared, the other caught by **kw: the declared one always comes first in the binding
+        for kw in (KW_ANY, KW_A):
+            kwonly += [(P('kW', 'kwonly', t, n), kw), (P('kV', 'kwonly', t, n), kw)]
+    return {'kwonly': (kwonly, ('kW', 'kV'), ((None, ()),)),
+            'bykeyword': (bykeyword, ('x', 'y'), ((None, ()),)),
+            'behind': (behind, ('kW', 'kV'), ((None, (V('b'),)), (('val', 'b'), ())))}
+
+
+def kw2_calls(tier, names, prefixes):
+    vals = [V('a'), V('b'), V('c')] + ([V('n'), K(None), K(1)] if tier == 'thorough' else [])
+    out = []
+    for recv, args in prefixes:
+        for v1, v2 in itertools.product(vals, repeat=2):
+            out.append((recv, args, ((names[0], v1), (names[1], v2))))
+            out.append((recv, args, ((names[1], v2), (names[0], v1))))
+    return out
+
+
+def job_kw2(tier, group, firsts):
+    """Unordered same-layer pairs of one group x calls with both keywords, both written orders, both paths."""
+    res = Result()
+    pls, names, prefixes = kw2_groups(tier)[group]
+    calls = list(enumerate(kw2_calls(tier, names, prefixes)))
+    lay = layerings(2)['same']
+    declared = lambda pl: [p[0] for p in pl if p[0] in names]     # noqa: E731
+    for i in firsts:
+        for j in range(i, len(pls)):
+            o = (overload(0, pls[i], kind_for(pls[i])), overload(1, pls[j], kind_for(pls[j])))
+            order = 'the same order' if declared(pls[i]) == declared(pls[j]) else 'different orders'
+            run_family(res, ('kw2', group, i, j), lay(o), calls,
+                       key='two keyword arguments, overloads declaring the parameters they bind in %s: '
+                           'the selection among the matches is not the keyword-by-keyword most specific one' % order)
+    return res
+
+
+# ---------------------------------------------------------------------------
+# registration histories with a rejected attempt
+# ---------------------------------------------------------------------------
+def rejected_overloads(tier):
+    """Methods / extension methods that cannot be called as a method."""
+    lazy = P('x', 'pos', 'Lazy', True)
+    lists = [(), (lazy,), (K_OPT,)]
+    if tier == 'thorough':
+        lists += [(H_ENGINE, lazy), (KW_ANY,), (lazy, P('y', 'pos', 'A')), (R_LAZY,)]
+    return [('r', pl, kind, False) for pl in lists for kind in ('method', 'ext')]
+
+
+def history_plists(tier):
+    return small_plists(tier)[:7] if tier == 'thorough' else small_plists(tier)[:3] + small_plists(tier)[5:6]
+
+
+# (o1, o2, rejected attempt, flag of the accepted registrations of the nearest layer that has some) -> history, nearest layer first
+HISTORIES = {
+    'alone': lambda o1, o2, r, f: ((r,), ((o2, f),)),
+    'before': lambda o1, o2, r, f: ((r, (o1, f)), ((o2, False),)),
+    'after': lambda o1, o2, r, f: (((o1, f), r), ((o2, False),)),
+    'between': lambda o1, o2, r, f: (((o1, f),), (r,), ((o2, False),)),
+}
+
+REGISTRATION = ('harness: a registration attempt was accepted / rejected differently from models.resolve.valid_method '
+                '(the layers told to the model are not the ones built)')
+
+
+def job_rejected(tier, part, of):
+    res = Result()
+    calls = list(enumerate(call_set(tier, 'small')))
+    pls = history_plists(tier)
+    n = 0
+    for name, make in sorted(HISTORIES.items()):
+        for i, j in itertools.product(range(len(pls)), repeat=2):
+            if name == 'alone' and i:
+                continue                    # o1 is not part of this history
+            o1, o2 = overload(0, pls[i], kind_for(pls[i])), overload(1, pls[j], kind_for(pls[j]))
+            for ri, r in enumerate(rejected_overloads(tier)):
+                for re_, f in itertools.product((False, True), repeat=2):
+                    n += 1
+                    if n % of != part:
+                        continue
+                    history = make(o1, o2, (r, re_), f)
+                    layers, rejected = M.registered(history)
+                    ctx, observed = R.build_history(history, R.CLASSES5, base())
+                    fid = ('rejected', name, i, j, ri, re_, f)
+                    if observed != rejected:
+                        res.fail(REGISTRATION, {'composite': fid, 'history': history, 'layers': layers,
+                                                'call': calls[0][1], 'path': 'direct'},
+                                 'rejected attempts observed %r expected %r' % (observed, rejected))
+                        continue
+                    run_on(res, fid, ctx, layers, calls, text=False, extra={'history': history},
+                           key='resolution after a rejected registration attempt (exclusive=%s) differs from resolution '
+                               'without the attempt' % re_)
+    return res
+
+
 def strides(n, k):
     """k interleaved index lists over range(n): similar cost per job although low indices pair with more partners."""
     return [list(range(n))[i::k] for i in range(min(k, n))]
@@ -642,6 +785,11 @@ def jobs(tier, seed):
     for n, idx in enumerate(strides(len(composite_plists(tier)), 7 if quick else 16)):
         out.append(('multi-%02d' % n, 'job_multi', (tier, idx)))
     out.append(('linked', 'job_linked', (tier, list(range(len(composite_plists(tier)))))))
+    for group, (gpls, _, _) in sorted(kw2_groups(tier).items()):
+        for n, idx in enumerate(strides(len(gpls), (2 if group == 'bykeyword' else 4) if quick else 16)):
+            out.append(('kw2-%s-%02d' % (group, n), 'job_kw2', (tier, group, idx)))
+    parts = 4 if quick else 16
+    out += [('rejected-%02d' % k, 'job_rejected', (tier, k, parts)) for k in range(parts)]
     return out
 
 
@@ -664,6 +812,13 @@ def replay(case):
         ctx = build_multi(members, far, tuple(order), comp[6])
     elif comp and comp[0] == 'linked':
         ctx = build_linked(layers)
+    elif comp and comp[0] == 'rejected':
+        history = _tuples(case['history'])
+        told, rejected = M.registered(history)
+        ctx, observed = R.build_history(history, R.CLASSES5, base())
+        if (told, observed) != (layers, rejected):
+            return {'observed': 'rejected attempts %r' % (observed,), 'expected': 'rejected attempts %r' % (rejected,),
+                    'ok': False, 'text': None}
     else:
         ctx = R.build_layers(layers, R.CLASSES5, base())
     obs = observe(ctx, call, case['path'])
